@@ -22,6 +22,7 @@ import SarpyModel.Drivers.FieldFmt2
 import SarpyModel.Drivers.XsdFmt
 import SarpyModel.Drivers.Kernels2
 import SarpyModel.Drivers.NitfAssembly
+import SarpyModel.Drivers.LifeGen
 import SarpyModel.Drivers.Tre
 import SarpyModel.Drivers.NitfDtype
 namespace Sarpy.Drivers
@@ -53,6 +54,7 @@ def step (line : String) : String :=
   | "xsd" :: rest => (xsdStep rest).getD "bad-op"
   | "k2" :: rest => (k2Step rest).getD "bad-op"
   | "nitfasm" :: rest => (nitfasmStep rest).getD "bad-op"
+  | "lifegen" :: rest => (lifeGenStep rest).getD "bad-op"
   | "tre" :: rest => (treStep rest).getD "bad-op"
   | "nitfdtype" :: rest => (nitfdtypeStep rest).getD "bad-op"
   | _ => "bad-op"
